@@ -157,3 +157,7 @@ impl LexiconSet<'_> {
         self.lexicons.iter().fold(0, |acc, lex| acc + lex.size())
     }
 }
+
+// verification hook: harness text lives outside the repository (see MANIFEST.hooks)
+#[cfg(any(kani, sudachi_verif))]
+include!(concat!(env!("SUDACHI_VERIF_DIR"), "/dic__lexicon_set.rs"));
